@@ -147,6 +147,23 @@ def ffInit (nt : List (String × Nat)) (tab : List Entry) (parsers : List (Strin
   | some ff, some n => some (n, ff)
   | _, _ => none                       -- an exception while reading / TypeError: neither directory nor name
 
+/-- `find_force_fields(directory, force_fields)`: `top` = the entries of `directory` in `os.listdir`
+order, each a sub-directory with its own listing or (`none`) something else; `pre` = the dictionary that
+is passed in.  A sub-directory without any force-field file is skipped; a name that is already a key
+is UPDATED (`read_from` on the existing object), otherwise `ForceField(path)` is created under that
+name.  `none` = an exception. -/
+def findForceFields (nt : List (String × Nat)) (tab : List Entry) (parsers : List (String × String))
+    (pre : List (String × FF)) (top : List (String × Option (List DirEntry))) : Option (List (String × FF)) :=
+  foldOpt (fun acc (e : String × Option (List DirEntry)) =>
+    match e.2 with
+    | none => some acc                       -- glob under a file finds nothing
+    | some listing =>
+      let order := readOrder (parsers.map (·.1)) listing
+      if order.isEmpty then some acc
+      else
+        let start : FF := ((acc.find? (fun x => x.1 = e.1)).map (·.2)).getD {}
+        (foldOpt (loadFile nt tab parsers) start order).map fun ff => dictSet acc e.1 ff) pre top
+
 /-! ### the mapping directory (`vermouth.map_input.read_mapping_directory`)
 
 `Path(directory).glob('**/*.map')` then `glob('**/*.mapping')`: pathlib walks the directory tree in
